@@ -143,7 +143,8 @@ func mutateSQL(r *Rand, s string) string {
 	case 7: // out-of-range index in a path
 		for i, t := range toks {
 			if strings.EqualFold(t, "FROM") && i+1 < len(toks) {
-				toks[i+1] = "`" + strings.Trim(toks[i+1], "`") + Pick(r, []string{"[5]", "[(0:9)]", "[(2:1)]", "[each:0]", "[0:0:0:0]", "[keep=>7]", "[-1]", "{x|number}", "::[3]"}) + "`"
+				toks[i+1] = "`" + strings.Trim(toks[i+1], "`") + Pick(r, []string{"[5]", "[(0:9)]", "[(2:1)]", "[each:0]", "[0:0:0:0]", "[keep=>7]", "[-1]", "{x|number}", "::[3]",
+					"[first]", "[(0:1:2)]", "[(a:b)]", "[(1)]", "::[last]", "[99999999999999999999]"}) + "`"
 				break
 			}
 		}
@@ -168,6 +169,16 @@ var crashCorpus = []string{
 	"SELECT * FROM `t[5]`",
 	"SELECT * FROM `t[(0:9)]`",
 	"SELECT * FROM `t[each:0]`",
+	"SELECT * FROM `t[first]`",
+	"SELECT * FROM `t[(0:1:2)]`",
+	"SELECT id FROM t WHERE id IN (SELECT id FROM `<-.t[(a:b)]`)",
+	"SELECT DISTINCT * FROM t WHERE n1 > 0",
+	"SELECT DISTINCT * FROM t WHERE EXISTS (SELECT * FROM items WHERE p > 0)",
+	"SELECT ASYNC.crashf(id DIV 0) AS v FROM t",
+	"SELECT ASYNC.crashf(1 << (0 - id)) AS v FROM t",
+	"SELECT SPINASYNC.crashf(id DIV (id - 1)) FROM t",
+	"SELECT SPIN.crashf(SUBSTR(s1, 5, 100)) FROM t",
+	"SELECT ONCE.crashf(id DIV 0) AS v FROM t",
 	"SELECT DISTINCT (SELECT p FROM items) AS s, * FROM t",
 	"SELECT DISTINCT (SELECT * FROM dual) AS s, * FROM t",
 	"SELECT * FROM t ORDER BY (SELECT 1 FROM dual)",
@@ -220,6 +231,12 @@ func genCrashCases(r *Rand, tier string) []crashCase {
 			m["items"] = items
 		}
 		u := genTable(r, 3)
+		if r.Chance(12) {
+			for _, row := range t.rows {
+				row.(map[string]any)["<-"] = "src"
+				row.(map[string]any)["->"] = "dst"
+			}
+		}
 		return map[string]any{"t": t.rows, "u": u.rows, "n": []any{t.rows, u.rows}, "vals": []any{map[string]any{"v": float64(1)}}}
 	}
 	add := func(sql string, doc map[string]any, tags ...string) {
@@ -287,7 +304,9 @@ func genCrashCases(r *Rand, tier string) []crashCase {
 		for i := 0; i < 150; i++ {
 			qual := Pick(r, []string{"", "ASYNC.", "SPIN.", "SPINASYNC.", "ONCE."})
 			var s string
-			switch r.Intn(4) {
+			switch r.Intn(5) {
+			case 4:
+				s = "SELECT id, " + qual + "crashf(" + Pick(r, []string{"id DIV 0", "id DIV (id - 2)", "1 << (0 - id)", "SUBSTR(s1, 3, 50)"}) + ") AS v FROM t"
 			case 0:
 				s = "SELECT id, " + qual + "crashf(id) AS v FROM t"
 			case 1:
